@@ -2,8 +2,8 @@
    these definitions of /repo; tools/srcfacts.py regenerates their normal-form digests on every run (coq/Gen/Src_*.v).
    Statements only. *)
 From Coq Require Import List String.
-From ME Require Import Model.SrcExpected Gen.Src_fbool Gen.Src_fbase Gen.Src_fcheck
-  Proofs.Src_ok_fbool Proofs.Src_ok_fbase Proofs.Src_ok_fcheck.
+From ME Require Import Model.SrcExpected Gen.Src_fbool Gen.Src_fbase Gen.Src_fcheck Gen.Src_common
+  Proofs.Src_ok_fbool Proofs.Src_ok_fbase Proofs.Src_ok_fcheck Proofs.Src_ok_common.
 
 (* more_executors/_impl/futures/bool.py *)
 Theorem c14_source_fbool : Src_fbool.facts = expected_fbool.
@@ -14,7 +14,11 @@ Proof. exact src_fbase_ok. Qed.
 (* more_executors/_impl/futures/check.py *)
 Theorem c14_source_fcheck : Src_fcheck.facts = expected_fcheck.
 Proof. exact src_fcheck_ok. Qed.
+(* more_executors/_impl/common.py *)
+Theorem c14_source_common : Src_common.facts = expected_common.
+Proof. exact src_common_ok. Qed.
 
 Print Assumptions c14_source_fbool.
 Print Assumptions c14_source_fbase.
 Print Assumptions c14_source_fcheck.
+Print Assumptions c14_source_common.
